@@ -144,6 +144,8 @@ type Reach struct {
 	tracked map[ssa.Value]bool          // cells that are tracked
 	stable  map[ssa.Value]bool          // tracked cells not killed by calls
 	phiVal  map[*ssa.Phi]AV
+	barrier func(ssa.Instruction) bool
+	cutAt   map[*ssa.BasicBlock]int // index of the barrier instruction that ends the block
 }
 
 // ReachOpts configures a run.
@@ -155,12 +157,16 @@ type ReachOpts struct {
 	Start ssa.Instruction
 	// CutBackEdges ignores edges into blocks that dominate their source (per-iteration properties).
 	CutBackEdges bool
+	// Barrier stops every path at the instructions it matches (the barrier itself is reached,
+	// nothing after it on that path): "reachable without passing through X", decided
+	// together with the abstract values (e.g. a loop guarded by a flag that starts true).
+	Barrier func(ssa.Instruction) bool
 }
 
 // Analyze runs the conditional-constant/nilness propagation.
 func Analyze(fn *ssa.Function, opt ReachOpts) *Reach {
 	r := &Reach{Fn: fn, pins: opt.Pins, in: map[*ssa.BasicBlock]*state{}, edges: map[[2]*ssa.BasicBlock]bool{},
-		tracked: map[ssa.Value]bool{}, stable: map[ssa.Value]bool{}, phiVal: map[*ssa.Phi]AV{}}
+		tracked: map[ssa.Value]bool{}, stable: map[ssa.Value]bool{}, phiVal: map[*ssa.Phi]AV{}, barrier: opt.Barrier, cutAt: map[*ssa.BasicBlock]int{}}
 	if r.pins == nil {
 		r.pins = map[ssa.Value]AV{}
 	}
@@ -654,6 +660,10 @@ func (r *Reach) propagate(from, to *ssa.BasicBlock, st *state, work *[]*ssa.Basi
 
 func (r *Reach) runBlock(b *ssa.BasicBlock, from int, st *state, work *[]*ssa.BasicBlock, cut bool) {
 	for i := from; i < len(b.Instrs); i++ {
+		if r.barrier != nil && r.barrier(b.Instrs[i]) {
+			r.cutAt[b] = i
+			return
+		}
 		r.step(b.Instrs[i], st)
 	}
 	if len(b.Instrs) == 0 {
@@ -691,15 +701,20 @@ func (r *Reach) BlockReached(b *ssa.BasicBlock) bool {
 // Reachable reports whether instruction in may execute under the assumptions of the run.
 func (r *Reach) Reachable(in ssa.Instruction) bool {
 	b := in.Block()
+	idx := -1
+	for i, x := range b.Instrs {
+		if x == in {
+			idx = i
+		}
+	}
+	if c, ok := r.cutAt[b]; ok && idx > c {
+		return false
+	}
 	if _, ok := r.in[b]; ok {
 		return true
 	}
 	if b == r.startB {
-		for i, x := range b.Instrs {
-			if x == in {
-				return i >= r.startI
-			}
-		}
+		return idx >= r.startI
 	}
 	return false
 }
